@@ -43,4 +43,17 @@ def facts(read, die, define):
     else:
         die("C20: unrecognised handling of missing samples in tsk_tree_map_mutations: %r / %r" % (mb, cb))
     out.append("Definition c20_missing_through_hartigan : bool := %s." % flag)
+    # F14 (proposed repair, fixes/C20-F14-reject-samples-below-no-root.diff): does the function
+    # reject trees in which some sample is not visited by the postorder traversal
+    # (root_threshold > 1)?  Two recognised shapes, anything else fails closed.
+    has_counter = "num_visited_samples" in body
+    guard = ("if (u != (tsk_id_t) N && (node_flags[u] & TSK_NODE_IS_SAMPLE)) { num_visited_samples++; }" in body
+             and "if (num_visited_samples != num_samples) { ret = tsk_trace_error(TSK_ERR_UNSUPPORTED_OPERATION); goto out; }" in body)
+    if not has_counter and "TSK_ERR_UNSUPPORTED_OPERATION" not in body:
+        rej = "false"
+    elif guard:
+        rej = "true"
+    else:
+        die("C20: unrecognised handling of unvisited samples in tsk_tree_map_mutations")
+    out.append("Definition c20_rejects_unvisited_samples : bool := %s." % rej)
     return out
